@@ -296,13 +296,15 @@ def safe_dataframe_replace(
 
 
 def text_column_dtypes(
-    column_names: Iterable[Any], text_columns: Sequence[str] = ("label",)
+    column_names: Iterable[Any], text_columns: Sequence[str] = ("label", "expression", "expr")
 ) -> dict[Any, type]:
     """Create the ``dtype`` mapping which makes pandas readers keep text columns as text.
 
     Pandas readers infer the type of a column from all of its cells, thus a column which only
     contains numeric looking labels (e.g. ``1.10`` or ``007``) would be read as numbers
-    (``1.1`` and ``7``) if it isn't explicitly read as text.
+    (``1.1`` and ``7``) if it isn't explicitly read as text. Likewise a column of expressions
+    which are all numeric literals (e.g. ``1`` or ``2.5``) would be read as numbers and the
+    expressions would get lost.
 
     Parameters
     ----------
